@@ -14,12 +14,12 @@ from harness.util import rel_close
 RULE = ("mixtures of 1..6 distinct substances (pool of real formulas + random 1..3-element formulas over the live "
         "periodic table) with positive proportions over many orders of magnitude (mostly [1e-3,1e3], traces down to 1e-12, bulk up to 1e6; scale factors 1e-9 … 1e9), every norm_type (NUMBER, "
         "NUMBER_FRACTION, MASS_FRACTION), natural / most-abundant, built from a dict or from the '<..>' string (proportions written as plain decimals, integers, 'd.' and e/E notation); components include bare nucleons and fully ionised species; "
-        "plus Substance composites (elements with counts, NUMBER mode); the avg row always and the components= selection on 40 % of the cases (impl vs model; selected rows must keep their values); scaling and both dualities on 40 % (quick) / all (thorough) of the cases; plus histories (a + b, add() on the sum, k * sum, add() on an operand; every live material re-read after every step); corpus first. non-trivial = at least two "
+        "plus Substance composites (elements with counts, NUMBER mode); the avg row always and the components= selection on 40 % of the cases (impl vs model; selected rows must keep their values); scaling and both dualities on 30 % (quick) / all (thorough) of the cases; plus histories (a + b, add() on the sum, k * sum, add() on an operand; every live material re-read after every step); corpus first. non-trivial = at least two "
         "components with different masses; distinct = canonical JSON of (kind, mode, natural, components)")
 ASSUMPTIONS = [
     "proportions and component masses are positive finite floats (the property's quantifier); empty composites return None and are skipped",
     "component masses m_i are read from data_components() of the same object (their correctness is property C10)",
-    "floats are compared with relative tolerance 1e-9 to the exact rational value computed by the Lean model",
+    "floats are compared with relative tolerance 1e-9 to the exact rational value computed by the Lean model; every compared quantity is a quotient of sums of positive terms (no cancellation), so the wide range of proportions (1e-12 … 1e6) only rescales it; the sum rows are compared with 100",
     "the string form of a material goes through MaterialSolver; the proportions actually stored in the object are the ones judged",
     "the conversion of a dimensionless quantity to '%' is a multiplication by 100 (unit conversion itself is property C04)",
 ]
@@ -91,7 +91,7 @@ def gen_case(rng, nat, allsym):
             f = rng.choice(POOL)
         else:
             f = rand_formula(rng, syms)
-        return {"kind": "substance", "formula": f, "natural": natural}
+        return {"kind": "substance", "formula": f, "natural": natural, "proportion": rng.choice([1, 1, 2, 3, 0.5, 10, 1e-3])}
     k = rng.choice([1, 2, 2, 3, 3, 4, 5, 6])
     subs = []
     while len(subs) < k:
@@ -124,7 +124,7 @@ def number_token(rng, p):
 def build(case, comps=None, mode=None):
     from scinumtools.materials import Material, Substance, Norm
     if case["kind"] == "substance":
-        return Substance(case["formula"], natural=case["natural"])
+        return Substance(case["formula"], proportion=case.get("proportion", 1.0), natural=case["natural"])
     comps = case["comps"] if comps is None else comps
     mode = case["mode"] if mode is None else mode
     if case.get("via") == "string" and comps is case["comps"]:
@@ -311,7 +311,37 @@ def nontrivial(imp):
     return "err" not in imp and len(imp["m"]) >= 2 and len({round(m, 6) for m in imp["m"]}) >= 2
 
 
+def inner_substances(ctx, case):
+    """the substances INSIDE a material (they carry the material's proportions) are composites themselves"""
+    out = []
+    try:
+        obj = build(case)
+        for key in list(obj.components.keys())[:2]:
+            sub = obj.components[key]
+            if len(sub.components) >= 1:
+                out.append(({"kind": "substance", "formula": key, "natural": case["natural"], "inside": case["comps"]},
+                            snapshot(sub, "NUMBER")))
+    except Exception:  # noqa
+        pass
+    return out
+
+
 def process(ctx, cases):
+    extra = []
+    for c in cases:
+        if c["kind"] == "material" and c.get("inner"):
+            extra += inner_substances(ctx, c)
+    if extra:
+        res = ctx.driver.ask_many([request(i) for _, i in extra])
+        for (c, imp), r in zip(extra, res):
+            ctx.case(["inner", c], len(imp.get("p", [])) >= 2)
+            ctx.count("kind.substance-inside-material")
+            viol, dis = judge(ctx, c, imp, r)
+            for sig, what in viol[:1]:
+                ctx.violation(sig, "substance %s inside a material: %s  [%s]" % (c["formula"], what, json.dumps(c)[:300]),
+                              {"stream": "fractions", "case": c, "impl": imp})
+            for stream, detail in dis[:1]:
+                ctx.disagreement(stream, c, detail)
     imps = [run_impl(c) for c in cases]
     res = ctx.driver.ask_many([request(i) for i in imps])
     for case, imp, r in zip(cases, imps, res):
@@ -362,7 +392,7 @@ def history_stream(ctx, nat, allsym, n):
         # the proportions every live material must hold come from the Lean object-store model
         fr = lambda l: [[f, frac(p)] for f, p in l]
         ops = [["new", fr(A)], ["new", fr(B)], ["plus", 0, 1], ["add", 2, subs[3], frac(padd)],
-               ["mul", 2, frac(k)], ["add", 1, subs[4], frac(padd)]]
+               ["mul", 2, frac(k)], ["add", 1, subs[4], frac(padd)], ["plus", 0, 1]]
         r = ctx.driver.ask({"k": "ops", "ops": ops})
         if "ok" not in r:
             ctx.disagreement("history", replay, "driver error %s" % r)
@@ -383,6 +413,11 @@ def history_stream(ctx, nat, allsym, n):
             live[1].add(subs[4], padd)                  # an operand is modified afterwards
             for idx, obj in enumerate(live):
                 entries.append(("scale:#%d" % idx, replay, snaps[5][idx], mode, snapshot(obj, mode)))
+            acc = live[0]
+            acc += live[1]                              # augmented assignment = addition, a is untouched
+            live.append(acc)
+            for idx, obj in enumerate(live):
+                entries.append(("iadd:#%d" % idx, replay, snaps[6][idx], mode, snapshot(obj, mode)))
         except Exception as e:  # noqa
             ctx.violation("history:%s:error" % mode, "combining valid materials raises %r  [%s]" % (e, json.dumps(replay)[:300]), replay)
     # products and sums of substances used as they are: they are composites too
@@ -396,7 +431,12 @@ def history_stream(ctx, nat, allsym, n):
         ctx.count("history.substance")
         try:
             s1, s2 = Substance(f1, natural=natural), Substance(f2, natural=natural)
-            for label, obj in (("product", s1 * k), ("sum", s1 + s2), ("product-of-sum", (s1 + s2) * k), ("operand", s1)):
+            s3 = Substance(f1, natural=natural)
+            s3 += s2
+            s4 = Substance(f1, natural=natural)
+            s4 *= k
+            for label, obj in (("product", s1 * k), ("sum", s1 + s2), ("product-of-sum", (s1 + s2) * k), ("operand", s1),
+                               ("iadd", s3), ("imul", s4)):
                 entries.append((label, replay, None, "NUMBER", snapshot(obj, "NUMBER")))
         except Exception as e:  # noqa
             ctx.violation("history:NUMBER:error", "combining valid substances raises %r  [%s]" % (e, json.dumps(replay)), replay)
@@ -416,19 +456,20 @@ def correspond(ctx: Ctx):
     thorough = ctx.tier == "thorough"
     nat, allsym = natural_symbols()
     cases = corpus_cases()
-    n = 2500 if thorough else 350
+    n = 2500 if thorough else 240
     for i in range(n):
         c = gen_case(ctx.rng, nat, allsym)
         if ctx.rng.random() < 0.15:
             c["quantity"] = True
         c["k"] = ctx.rng.choice([2.0, 0.5, 7.25, 100.0, 0.01, 1e3, 1e-3, 1e6, 1e-6, 1e9, 1e-9, math.exp(ctx.rng.uniform(-5, 5))])
         # scaling + both dualities rebuild the material three times: done on a random 40 % (all in thorough)
-        c["relational"] = thorough or ctx.rng.random() < 0.4
+        c["relational"] = thorough or ctx.rng.random() < 0.3
+        c["inner"] = ctx.rng.random() < 0.3
         if ctx.rng.random() < 0.4:
             c["keep"] = [ctx.rng.random() < 0.6 for _ in range(8)]
         cases.append(c)
     process(ctx, cases)
-    history_stream(ctx, nat, allsym, 150 if thorough else 25)
+    history_stream(ctx, nat, allsym, 150 if thorough else 14)
 
 
 def replay(ctx, payload):
